@@ -211,6 +211,17 @@ fn vtd_sound_body_w<const MAXN: u64, const BITS: u32>() {
             let (u2, o2) = bn_eff.overflowing_mul(&U256::from(ee.index() + 1));
             let (un, o3) = u1.overflowing_add(&u2);
             assert!(!o1 && !o2 && !o3, "SPEC total difficulty: unaligned part overflows yet accepted");
+            // the EPOCH difficulties (block difficulty x length of its OWN epoch) of the two end points are within tau^n of each other
+            {
+                let (es, _) = b0.overflowing_mul(&U256::from(se.length()));
+                let (ee_d, _) = bn_eff.overflowing_mul(&U256::from(ee.length()));
+                let two = U256::from(2u64);
+                let mut up = es.clone(); let mut dn = es.clone();
+                let mut i = 0;
+                while i < n { up = up.saturating_mul(&two); dn = dn >> 1u8; i += 1; }
+                assert!(ee_d <= up, "SPEC total difficulty: epoch difficulty growth faster than tau per epoch accepted");
+                assert!(ee_d >= dn, "SPEC total difficulty: epoch difficulty shrinkage faster than tau per epoch accepted");
+            }
             if n == 1 {
                 assert!(total == un, "SPEC total difficulty: mismatch across exactly one epoch switch accepted");
             } else {
@@ -379,3 +390,43 @@ fn complete_n0_q() {
 #[kani::stub(numext_fixed_uint::U256::_div_with_rem, stub_div_with_rem)]
 #[kani::stub(ckb_types::utilities::compact_to_difficulty, stub_c2d)]
 fn vtd_sound_q0() { vtd_sound_body_w::<0, 64>(); }
+
+// ---------------------------------------------------------------------------------------------------
+// quick-tier variants ACROSS EXACTLY ONE EPOCH SWITCH with narrow block difficulties (the algorithm sees a difficulty only through products with
+// 16-bit epoch fields, so a wrong operand / off-by-one / wrong epoch in those products already shows at 8 bits)
+// ---------------------------------------------------------------------------------------------------
+#[kani::proof]
+#[kani::unwind(5)]
+#[kani::stub(alloc::fmt::format, stub_format)]
+#[kani::stub(log::__private_api::log, stub_log)]
+#[kani::stub(numext_fixed_uint::U256::_div_with_rem, stub_div_with_rem)]
+#[kani::stub(ckb_types::utilities::compact_to_difficulty, stub_c2d)]
+fn vtd_sound_q1s() { vtd_sound_body_w::<1, 8>(); }
+
+#[kani::proof]
+#[kani::unwind(5)]
+#[kani::stub(alloc::fmt::format, stub_format)]
+#[kani::stub(log::__private_api::log, stub_log)]
+#[kani::stub(numext_fixed_uint::U256::_div_with_rem, stub_div_with_rem)]
+#[kani::stub(ckb_types::utilities::compact_to_difficulty, stub_c2d)]
+fn complete_n1_qs() {
+    // exactly one switch, block difficulties < 2^8, epoch lengths < 8, start total < 2^24
+    let a: u8 = kani::any(); let b: u8 = kani::any();
+    kani::assume(a != 0 && b != 0);
+    let b0 = U256([a as u64, 0, 0, 0]); let bn = U256([b as u64, 0, 0, 0]);
+    let c0: u32 = kani::any(); let cn: u32 = kani::any();
+    kani::assume(c0 != cn);
+    set_table(c0, &b0, &bn);
+    let s: u64 = kani::any(); kani::assume(s < 1000);
+    let l0: u64 = kani::any(); let i0: u64 = kani::any(); kani::assume(l0 >= 1 && l0 < 8 && i0 < l0);
+    let t0 = tiny_u256();
+    let se = EpochNumberWithFraction::new_unchecked(s, i0, l0);
+    let ln: u64 = kani::any(); let i_n: u64 = kani::any(); kani::assume(ln >= 1 && ln < 8 && i_n < ln);
+    let ee = EpochNumberWithFraction::new_unchecked(s + 1, i_n, ln);
+    let e0 = &b0 * l0; let e1 = &bn * ln;
+    kani::assume(legal_step(&e0, &e1));
+    let t1 = &(&t0 + &(&b0 * (l0 - i0 - 1))) + &(&bn * (i_n + 1));
+    assert!(matches!(verify_tau(se, c0, ee, cn, 2), Ok(true)), "SPEC completeness: one-switch history rejected by verify_tau");
+    assert!(verify_total_difficulty(se, c0, &t0, ee, cn, &t1, 2).is_ok(), "SPEC completeness: one-switch history rejected");
+    kani::cover!(e1 > e0 && l0 != ln && i0 + 1 == l0, "difficulty increased across the switch, different epoch lengths, start at the last block of its epoch");
+}
